@@ -132,6 +132,10 @@ def parse_sanitizer_log(text):
                 fatal.append(("lsan:leak:%s" % (fr or "unknown"), rest))
                 continue
             kind = rest.split()[0] if rest else "unknown"
+            if rest.startswith("data race"):
+                kind = "data-race"
+            elif rest.startswith("lock-order-inversion"):
+                kind = "lock-order-inversion"
             fm = re.search(r" in (.+)$", rest)
             func = _short_func(fm.group(1)) if fm else "unknown"
             # prefer the first phosg frame of the first stack in the report
